@@ -681,6 +681,15 @@ func (p *Path) nowSec() *Term {
 	if p.ghost == nil {
 		p.ghost = map[string]Value{}
 	}
+	if span, ok := p.h.Params["clock_span_s"]; ok {
+		// the whole harness run takes at most span seconds of wall-clock time
+		if first, ok := p.ghost["now0"]; ok {
+			p.assertPC(tc.Sle(sec, tc.BvAdd(first.(*Term), tc.Const(64, uint64(span)))))
+		} else {
+			p.ghost["now0"] = sec
+		}
+		p.note(fmt.Sprintf("all time.Now readings of one run lie within %d s", span))
+	}
 	p.ghost["now"] = sec
 	return sec
 }
